@@ -114,6 +114,28 @@ def _run(ctx, chk):
                 while owner.kind == "Closure" and owner.parent in db.bodies:
                     owner = db.bodies[owner.parent]
                 ok = owner.name == "next" and m == "fetch_add"
+                if not ok and m == "fetch_add" and owner.vis != "pub":
+                    # a private helper of `next`: every caller chain inside the crate starts at `next` (G1 walks `next`
+                    # with the helper inlined, so the one-fetch_add-of-1 obligation still covers it)
+                    seen, todo, ok = set(), [owner.defp], True
+                    while todo and ok:
+                        x = todo.pop()
+                        if x in seen:
+                            continue
+                        seen.add(x)
+                        callers = [c2 for c2, tg in cg.edges.items() if x in tg]
+                        if not callers:
+                            ok = False
+                        for c2 in callers:
+                            cb = db.bodies.get(c2)
+                            if cb is None or "utils::uuid" not in c2:
+                                ok = False
+                            elif cb.name == "next" and cb.defp == nb.defp:
+                                continue
+                            elif cb.vis == "pub":
+                                ok = False
+                            else:
+                                todo.append(c2)
                 chk.require(ok, "G2", "%s:%s" % (d, m), span, "the generator's counter is modified by %s in %s" % (m, d))
     # ---------------- G3
     for b in (nb, nw):
